@@ -365,10 +365,11 @@ func (s *sys) writeField(f hpack.HeaderField, o *vu.Out) string {
 	// state before the call
 	_, encMax, encMin, _, encUpd, encEnts0 := hpack.VerifC01EncState(s.enc)
 	_, _, _, decEnts0, _ := hpack.VerifC01DecState(s.dec)
-	// the region of the known defect: two size updates will be emitted (minSize < maxSize) and the
-	// decoder's table is still non-empty after applying the first one (its newest entry fits).
+	// two table size updates will be emitted when the size was lowered and raised again (minSize < maxSize)
 	doubleUpd := encUpd && encMin < encMax
-	region := doubleUpd && len(decEnts0) > 0 && decEnts0[0].Size() <= encMin
+	if doubleUpd && len(decEnts0) > 0 && decEnts0[0].Size() <= encMin {
+		o.Stat("update:double-nonempty-table")
+	}
 	if encUpd {
 		if doubleUpd {
 			o.Stat("update:double")
@@ -430,11 +431,6 @@ func (s *sys) writeField(f hpack.HeaderField, o *vu.Out) string {
 	}
 	if s.hypOK && !s.desync {
 		switch {
-		case derr != nil && region && errTag(derr) == "err UpdateNotAtStart":
-			s.desync = true
-			s.fail(o, true, "c01-double-size-update-rejected", fmt.Sprintf(
-				"Decoder rejects the encoder's own two table size updates (%d then %d) because its table is not empty after the first: %v; field %q=%q lost",
-				encMin, encMax, derr, f.Name, f.Value))
 		case derr != nil:
 			s.desync = true
 			s.fail(o, true, "", fmt.Sprintf("Decoder.Write(%x) of WriteField(%q,%q,sens=%v) failed: %v", p, f.Name, f.Value, f.Sensitive, derr))
